@@ -70,7 +70,90 @@ class C20(Check):
                     ops.append(("map", rng.random() < 0.5, rng.choice([0, 0x1000 * (i + 1) + rng.randrange(16)])))
                     live += 1
             out.append({"n": n, "ops": ops})
+        for _ in range(80 if self.tier == "quick" else 800):
+            # several sync GROUPS share one terminal: each maps its output and / or input image in one go (SyncGroupBase.map_fmmu) and is
+            # refused as a whole when the terminal has no FMMU left - which must not touch the bookings of the groups that are running
+            n = rng.choice([1, 2, 2, 3, 4])
+            script, live, g = [], [], 0
+            for i in range(rng.randint(2, 9)):
+                if live and rng.random() < 0.35:
+                    script.append(("gunmap", live.pop(rng.randrange(len(live)))))
+                else:
+                    out_, in_ = rng.choice([(True, True), (True, True), (True, False), (False, True)])
+                    script.append(("gmap", g, out_, in_, 0x1000 * (g + 1)))
+                    live.append(g)
+                    g += 1
+            out.append({"n": n, "kind": "groups", "script": script, "ops": []})
         return out
+
+    def run_groups(self, case):
+        from ebpfcat.ebpfcat import SyncGroupBase
+        from ebpfcat.ethercat import Terminal, SyncManager
+        writes = []
+
+        class FakeEc:
+            async def roundtrip(self, cmd, pos, offset, *args, data=None, idx=0):
+                writes.append((cmd.name, offset, args))
+                return ()
+
+        async def go():
+            t = Terminal(FakeEc())
+            t.position = 1001
+            t.name = "T1001"
+            t.fmmu_used = [None] * case["n"]
+            t.pdo_out_off, t.pdo_out_sz, t.pdo_in_off, t.pdo_in_sz = 0x1100, 4, 0x1180, 6
+            cms, res = {}, []
+            for op in case["script"]:
+                writes.clear()
+                if op[0] == "gmap":
+                    _, g, out_, in_, base = op
+                    sg = SyncGroupBase.__new__(SyncGroupBase)
+                    sg.fmmu_maps = {t: {**({SyncManager.OUT: base + 0x800} if out_ else {}), **({SyncManager.IN: base} if in_ else {})}}
+                    cm = sg.map_fmmu()
+                    try:
+                        await cm.__aenter__()
+                        cms[g] = cm
+                        r = "mapped"
+                    except ValueError:
+                        r = "refused"
+                else:
+                    cm = cms.pop(op[1], None)
+                    if cm is not None:
+                        await cm.__aexit__(None, None, None)
+                    r = "unmapped"
+                slots = [(w[1] - 0x600) // 16 for w in writes if w[0] == "FPWR" and 0x600 <= w[1] < 0x700 and w[1] % 16 == 0]
+                res.append([r, list(t.fmmu_used), slots])
+            return res
+        return asyncio.run(go())
+
+    def holds_groups(self, case, o):
+        n = case["n"]
+        held = {}          # group -> {slot: logical address}
+        for op, (r, table, slots) in zip(case["script"], o):
+            if op[0] == "gmap":
+                _, g, out_, in_, base = op
+                want = ([base + 0x800] if out_ else []) + ([base] if in_ else [])
+                free = n - sum(len(v) for v in held.values())
+                if r == "mapped":
+                    if len(want) > free:
+                        return f"group {g} needing {len(want)} FMMUs was accepted with {free} free ones; {case['script']}"
+                    taken = {s_ for v in held.values() for s_ in v}
+                    mine = [s_ for s_ in slots if table[s_] in want]
+                    if any(s_ in taken for s_ in mine):
+                        return (f"group {g} was given FMMU {[s_ for s_ in mine if s_ in taken]} of this terminal, which a running group still uses "
+                                f"(bookings {table}); {case['script']}")
+                    held[g] = {s_: table[s_] for s_ in range(n) if table[s_] in want and s_ not in taken}
+                # (a refusal with free FMMUs left is possible: the slot search of an output / input mapping does not cover all of them -
+                # that rule is the terminal-level model's, checked by the other families)
+            else:
+                held.pop(op[1], None)
+            expect = [None] * n
+            for v in held.values():
+                for s_, a in v.items():
+                    expect[s_] = a
+            if table != expect:
+                return f"after {op} the terminal's bookings are {table}, the running groups hold {expect}; {case['script']}"
+        return True
 
     @staticmethod
     def conc_case(rng):
@@ -182,6 +265,8 @@ class C20(Check):
         return asyncio.run(go())
 
     def run_impl(self, case):
+        if case.get("kind") == "groups":
+            return self.run_groups(case)
         if case.get("kind") == "conc":
             return self.run_conc(case)
         from ebpfcat.ethercat import Terminal
@@ -238,6 +323,8 @@ class C20(Check):
         return asyncio.run(go())
 
     def model_term(self, case):
+        if case.get("kind") == "groups":
+            return None      # whole groups against the bookings: decided by the oracle (the terminal-level steps inside are C20's other cases)
         # concurrent tasks: the model sees a mapping when its task starts (slot choice and booking are one step) and an
         # unmapping when its last bus write has completed
         ops = [f"Map {cbool(o[1])} {cz(o[2])}" if o[0] == "map" else f"Unmap {cnat(o[1])}" for o in case.get("_mops", case["ops"])]
@@ -246,6 +333,8 @@ class C20(Check):
     def holds(self, case, o):
         if isinstance(o, Err):
             return f"harness error: {o.what}"
+        if case.get("kind") == "groups":
+            return self.holds_groups(case, o)
         n = case["n"]
         live = []   # (slot, logical)
         prev = [None] * n
@@ -282,6 +371,8 @@ class C20(Check):
         return True
 
     def nontrivial(self, case, o):
+        if case.get("kind") == "groups":
+            return sum(1 for op in case["script"] if op[0] == "gmap") >= 2
         return sum(1 for op in case.get("_mops", case["ops"]) if op[0] == "map") >= 2
 
     def search_cases(self):
@@ -297,7 +388,8 @@ class C20(Check):
         return ("map(write/read)/unmap(k-th live) sequences of length 1-12 on terminals with 1-4 FMMUs (thorough: all sequences up to length 5 exhaustively); "
                 "plus scripts of up to 6 concurrent mapping tasks whose bus writes complete when the script says (a task starts while the configuration write "
                 "of another is outstanding, gives its mapping up while others start); plus sequences in which the terminal is brought to a state again (to_operational, "
-                "with and without an error flag to acknowledge) while mappings are alive; non-trivial = at least two map operations; distinct by content")
+                "with and without an error flag to acknowledge) while mappings are alive; plus scripts of whole sync groups sharing one terminal (each maps its output and / or input image through "
+                "SyncGroupBase.map_fmmu and is refused as a whole when no FMMU is left); non-trivial = at least two map operations; distinct by content")
 
     def distribution(self, cases, observed):
         d = {"maps": 0, "unmaps": 0, "failed_maps": 0}
@@ -305,19 +397,23 @@ class C20(Check):
             if isinstance(o, Err):
                 continue
             d["concurrent"] = d.get("concurrent", 0) + (c.get("kind") == "conc")
+            if c.get("kind") == "groups":
+                d["group_scripts"] = d.get("group_scripts", 0) + 1
+                d["groups_refused"] = d.get("groups_refused", 0) + sum(1 for r in o if r[0] == "refused")
+                continue
             for op, (r, _) in zip(c.get("_mops", c["ops"]), o):
                 d["maps" if op[0] == "map" else "unmaps"] += 1
                 d["failed_maps"] += isinstance(r, Err)
         return d
 
     def describe(self, case):
-        if case.get("kind") == "conc":
-            return {"n": case["n"], "kind": "conc", "script": [list(o) for o in case["script"]], "ops": []}
+        if case.get("kind") in ("conc", "groups"):
+            return {"n": case["n"], "kind": case["kind"], "script": [list(o) for o in case["script"]], "ops": []}
         return {"n": case["n"], "ops": [list(o) for o in case["ops"]]}
 
     def case_from_json(self, w):
-        if w.get("kind") == "conc":
-            return {"n": w["n"], "kind": "conc", "script": [tuple(o) for o in w["script"]], "ops": []}
+        if w.get("kind") in ("conc", "groups"):
+            return {"n": w["n"], "kind": w["kind"], "script": [tuple(o) for o in w["script"]], "ops": []}
         return {"n": w["n"], "ops": [tuple(o) for o in w["ops"]]}
 
 
